@@ -112,6 +112,11 @@ class World:
         if kind == 'bitarray':
             import bitarray
             return bitarray.bitarray(s)
+        if kind in ('gen_truthy', 'map_truthy'):
+            # a one-shot iterator of arbitrary truthy / falsy items (the documented meaning: bool(item) per item)
+            t, f = [2, 'x', 3.5, [0], True, -1, (None,)], [0, None, '', 0.0, [], False, ()]
+            items = [(t if b else f)[(i + len(bits)) % 7] for i, b in enumerate(bits)]
+            return (x for x in items) if kind == 'gen_truthy' else map(lambda x: x, items)
         if kind == 'bitarray_le':
             # the same sequence of bits held by a little-endian bitarray (its bytes differ, its bits do not)
             import bitarray
@@ -130,7 +135,8 @@ class World:
             o = self.objs[x['id']]
             p = enc.project(o)
             return {'k': 'obj', 'id': x['id'], 'kind': p['c'], 'v': p['v']}
-        return {'k': 'lit', 'id': '', 'kind': 'bitarray' if x['kind'] == 'bitarray_le' else x['kind'], 'v': list(x['v'])}
+        kind = {'bitarray_le': 'bitarray', 'gen_truthy': 'bools', 'map_truthy': 'bools'}.get(x['kind'], x['kind'])
+        return {'k': 'lit', 'id': '', 'kind': kind, 'v': list(x['v'])}
 
     # ---- projection ----------------------------------------------------
     def proj(self, o):
@@ -313,6 +319,8 @@ def _mk(w, c):
         return cls(w.make_lit('bitarray', bits), **kw)
     if route == 'bitarray_kw':
         return cls(bitarray=w.make_lit('bitarray', bits), **kw)
+    if route in ('gen_truthy', 'map_truthy'):
+        return cls(w.make_lit(route, bits), **kw)
     if route == 'bitarray_le':
         return cls(w.make_lit('bitarray_le', bits), **kw)
     if route == 'bitarray_le_kw':
